@@ -100,21 +100,26 @@ def run(ctx, ck):
     # the labelled sibling (report line "PULSE NO., VOLTAGE MAGNITUDE, PHASE (DEGREES):") fixes the
     # unit of each of the three values; the BASIC writer answers the same prompt
     def triple(q):
-        from ..fmt import written_values
+        """(func, (row expr, [three written values]), literal text of the function, prompt comment) - the one
+        line with three values, from the symbolic rows of the writer"""
+        from ..symx import SymExec, line_exprs, row_values, unwrap_formatted
         f = m.func(q)
-        fl_ = ctx.flow(f)
-        mods = []
-        for n in walk_no_nested(f.node):
-            if isinstance(n, ast.BinOp) and isinstance(n.op, ast.Mod):
-                vals = written_values(n.right, fl_, fl_.node_id_of(n))
-                if len(vals) == 3:
-                    mods.append((n, vals))
-        if len(mods) != 1:
-            raise AnalysisError('%s: expected one 3-value format, found %d' % (q, len(mods)))
-        label = ' '.join(x.value for x in walk_no_nested(f.node) if isinstance(x, ast.Constant)
-                         and isinstance(x.value, str))
-        c = prompt_comment(f.module, enclosing_stmt(mods[0][0]).lineno)
-        return f, mods[0], label, c
+        rows_ = []
+        for p_ in SymExec(ctx, f, bind_loops=True, max_paths=500).run():
+            if p_.end == 'raise':
+                continue
+            for e_, st_ in line_exprs(p_):
+                vals_ = row_values(e_)
+                if vals_ is not None and len(vals_) == 3:
+                    rows_.append((e_, [unwrap_formatted(v_) for v_ in vals_], st_))
+        keys_ = {tuple(norm(v_) for v_ in r_[1]) for r_ in rows_}
+        if len(keys_) != 1:
+            raise AnalysisError('%s: expected one 3-value line, found %d' % (q, len(keys_)))
+        label = ' '.join(x.value for x in ast.walk(f.node) if isinstance(x, ast.Constant) and isinstance(x.value, str))
+        line = rows_[0][2].lineno if rows_[0][2] is not None else f.node.lineno
+        c = prompt_comment(f.module, line)
+        node = rows_[0][2] if rows_[0][2] is not None else f.node
+        return f, (node, rows_[0][1]), label, c
     sf, smod, slabel, _ = triple('mininec.Excitation.as_mininec_short')
     bf, bmod, blabel, bcomment = triple('mininec.Excitation.as_basic_input')
     n_deg = 1 if re.search(r'DEG', slabel) else 0
@@ -134,49 +139,61 @@ def run(ctx, ck):
                'but the report line with that label writes %s (kinds %s): %s is in radians'
                % ([norm(a) for a in bvals], bkinds, [norm(a) for a in svals], skinds, bad))
     ck.ob('R-KIND.degrees', bf.qual, ok, bf.loc(bmod), why)
-    # angle conversions in report writers: every printed value that is computed from np.angle(...)
-    # is (angle) / pi * 180 - wherever the conversion is written (same name, new name, helper)
-    from ..fmt import printed_values
+    # angle conversions in report writers: every printed value that is computed from np.angle(...) is
+    # (angle) / pi * 180.  Decided on the rows of the symbolic walk (closed expressions: temporaries, tuples
+    # of (angle, magnitude) handed between loops, helpers and nested functions are looked through)
+    from ..symx import SymExec, line_exprs, row_values, canon_k
     n_ang = 0
-    prog = ctx.program
     writers = [f for f in m.all_funcs() if 'as_mininec' in f.name]
-    cl = prog.closure(writers, edge_filter=lambda e: e.kind == 'call')
-    for q_ in sorted(cl):
-        f = m.funcs[q_]
-        if not any(isinstance(c, ast.Call) and (dotted(c.func) or '') == 'np.angle' for c in walk_no_nested(f.node)):
+    wq_ = {f.qual for f in writers if not f.name.startswith('_')}
+    seen_ = {}
+    for f in sorted(writers, key=lambda x: x.qual):
+        if not any(isinstance(c, ast.Call) and (dotted(c.func) or '') == 'np.angle' for c in ast.walk(f.node)) and \
+           f.name.startswith('_'):
             continue
-        fl = ctx.flow(f)
-        seen_ = set()
-        # values handed to a formatter: %-format / f-string / format_float arguments, and values
-        # returned by a helper (judged where they are computed)
-        cands = [(v, n) for sp, v, n in printed_values(f, fl) if v is not None]
-        for c in walk_no_nested(f.node):
-            if isinstance(c, ast.Call) and isinstance(c.func, ast.Name) and c.func.id == 'format_float' and c.args:
-                from ..fmt import written_values
-                for v in written_values(c.args[0], fl, fl.node_id_of(c)):
-                    cands.append((v, c))
-            if isinstance(c, ast.Return) and c.value is not None:
-                for v in (c.value.elts if isinstance(c.value, ast.Tuple) else [c.value]):
-                    cands.append((v, c))
-            if isinstance(c, ast.Call) and isinstance(c.func, ast.Name) and c.func.id == 'zip':
-                for v in c.args:
-                    base = v.value if isinstance(v, ast.Attribute) and v.attr == 'flat' else v
-                    cands.append((base, c))
-        for v, node in cands:
-            at = fl.node_id_of(node)
-            e = fl.inline(v, at, depth=5)
-            angs = [c for c in ast.walk(e) if isinstance(c, ast.Call) and (dotted(c.func) or '') == 'np.angle']
-            if not angs:
+        try:
+            paths_ = SymExec(ctx, f, bind_loops=True, no_expand=wq_ - {f.qual}, max_paths=5000).run()
+        except AnalysisError:
+            continue
+        for p_ in paths_:
+            if p_.end == 'raise':
                 continue
-            key = '%s|%s' % (f.qual, norm(angs[0]))
-            if key in seen_:
-                continue
-            seen_.add(key)
-            ok = expr_unit(e, {}) == 'deg'
-            n_ang += 1
-            ck.ob('R-KIND.angle-conversion', key, ok, f.loc(node),
-                  'angle %s converted to degrees before printing' % norm(angs[0]) if ok else
-                  'value %s reaches the formatter without / pi * 180' % norm(e)[:70])
+            for e_, st_ in line_exprs(p_):
+                vals_ = row_values(e_)
+                if vals_ is None:
+                    continue
+                for v_ in vals_:
+                    # the printed value IS an angle when np.angle reaches it through scaling only (products
+                    # and quotients, selection of an element); an angle used inside exp / a power is not printed
+                    def linear_angles(x_):
+                        if isinstance(x_, ast.Call) and (dotted(x_.func) or '') == 'np.angle':
+                            return [x_]
+                        if isinstance(x_, ast.BinOp) and isinstance(x_.op, (ast.Mult, ast.Div)):
+                            return linear_angles(x_.left) + (linear_angles(x_.right) if isinstance(x_.op, ast.Mult) else [])
+                        if isinstance(x_, ast.UnaryOp):
+                            return linear_angles(x_.operand)
+                        if isinstance(x_, ast.Subscript):
+                            return linear_angles(x_.value)
+                        if isinstance(x_, ast.Attribute) and x_.attr in ('T', 'flat'):
+                            return linear_angles(x_.value)
+                        return []
+                    angs = linear_angles(v_)
+                    if not angs:
+                        continue
+                    # strip the element selection of an array-valued conversion: (x / pi * 180)[k]
+                    core = v_
+                    while isinstance(core, ast.Subscript):
+                        core = core.value
+                    okv = expr_unit(core, {}) == 'deg'
+                    key = '%s|%s' % (f.qual, canon_k(norm(angs[0]))[:80])
+                    prev = seen_.get(key)
+                    if prev is None or (prev[0] and not okv):
+                        seen_[key] = (okv, f.loc(st_), canon_k(norm(core))[:80], norm(angs[0])[:60])
+    for key, (okv, where, txt, ang) in sorted(seen_.items()):
+        n_ang += 1
+        ck.ob('R-KIND.angle-conversion', key, okv, where,
+              'angle %s converted to degrees before printing' % ang if okv else
+              'value %s reaches the formatter without / pi * 180' % txt)
     ck.floor('np.angle values reaching a formatter', n_ang, 3)
 
     # ---------------------------------------------------------------- D2
@@ -304,40 +321,32 @@ def run(ctx, ck):
     ck.info('answers_with_prompt_comment', n_doc)
     # media: an answer is written exactly when its prompt is asked; the report writer of the same
     # class prints the same item under the same condition (sibling)
-    from ..fmt import Evaluator, template_text, arg_text
     ck.rule('R-SIB.media-prompts', 'Medium: coordinate written iff there is a next medium, height iff a previous one')
+    # decided on the symbolic rows of both Medium writers: a path of the walk fixes the truth of the tests
+    # it passed (self.next / self.prev, looked through flags and tables of (condition, text, value) rows)
+    from ..symx import SymExec, line_exprs
     want = {'self.coord': 'self.next', 'self.height': 'self.prev'}
     for q in ('mininec.Medium.as_basic_input', 'mininec.Medium.as_mininec'):
         g = m.func(q)
-        ev = Evaluator(g, ctx)
-        em = ev.emissions()
-        paths = {}
-        for (t, conds, il, node, pconds) in em:
-            paths.setdefault(pconds, set())
-            for p_ in t:
-                if p_[0] == 'conv' and p_[2] is not None:
-                    a_ = arg_text(p_[2])
-                    for attr in want:
-                        if a_ and attr in a_:
-                            paths[pconds].add(attr)
+        paths_ = [p_ for p_ in SymExec(ctx, g, bind_loops=True, max_paths=5000).run() if p_.end != 'raise']
         for attr, guard in want.items():
             bad = []
             n_paths = 0
-            for pc, emitted in paths.items():
-                gv = [b for (t_, b) in pc if t_ == guard and isinstance(b, bool)]
-                # a path on which the guard is not tested stands for both values of the guard
-                vals = [gv[-1]] if gv else [True, False]
+            for p_ in paths_:
+                emitted = any(isinstance(x_, ast.Attribute) and norm(x_) == attr
+                              for e_, st_ in line_exprs(p_) for x_ in ast.walk(e_))
+                gv = [b_ for t_, b_ in p_.conds if t_ == guard and isinstance(b_, bool)]
                 n_paths += 1
-                for val in vals:
-                    if val != (attr in emitted):
-                        bad.append((pc + ((guard, val),) if not gv else pc, attr in emitted))
+                # a path on which the guard is not tested stands for both values of the guard
+                for val in ([gv[-1]] if gv else [True, False]):
+                    if val != emitted:
+                        bad.append((p_.conds, emitted, val))
             ok = not bad and n_paths >= 2
             why = '%s written exactly on the paths with `%s` (%d paths)' % (attr, guard, n_paths)
             if bad:
-                pc, em_ = bad[0]
+                pc, em_, val = bad[0]
                 why = ('%s is %s on the path %s although `%s` is %s: the answers do not match the prompts '
                        'for that medium' % (attr, 'written' if em_ else 'NOT written',
-                                            ['%s=%s' % (t_, b) for t_, b in pc if isinstance(b, bool)],
-                                            guard, not em_))
+                                            ['%s=%s' % (t_, b_) for t_, b_ in pc if isinstance(b_, bool)], guard, val))
             ck.ob('R-SIB.media-prompts', '%s|%s' % (q, attr), ok, g.loc(), why)
     ck.undecided += ['true prompt order of the BASIC program', 're-reading the answers as MININEC would']
